@@ -46,6 +46,12 @@ fn pair() -> impl Strategy<Value = (P, P)> {
             let lon = if a.0 > 0.0 { a.0 - 180.0 } else { a.0 + 180.0 };
             (a, ((lon + dx).clamp(-180.0, 180.0), (-a.1 + dy).clamp(-90.0, 90.0)))
         }),
+        // the same place, or two places centimetres apart, written on either side of the antimeridian (lon 180 = lon -180)
+        1 => (-85.0f64..85.0, prop_oneof![Just(0.0f64), -10.0f64..-5.0], prop_oneof![Just(0.0f64), -10.0f64..-5.0], prop_oneof![Just(0.0f64), -10.0f64..-6.0], any::<bool>()).prop_map(|(lat, e1, e2, e3, swap)| {
+            let p = |e: f64| if e == 0.0 { 0.0 } else { 10f64.powf(e) };
+            let (a, b) = ((180.0 - p(e1), lat), (-180.0 + p(e2), lat + p(e3)));
+            if swap { (b, a) } else { (a, b) }
+        }),
         // same latitude (east-west) and same longitude (north-south)
         1 => (lonlat(), -180.0f64..=180.0).prop_map(|(a, l)| (a, (l, a.1))),
         1 => (lonlat(), -90.0f64..=90.0).prop_map(|(a, l)| (a, (a.0, l))),
@@ -166,7 +172,9 @@ impl Property for C16 {
                 if rhumb_ok {
                     o.expect((d - dr).abs() <= 1e-9 * d + 1e-6, &format!("{n}|distance-asymmetric"), || format!("{d} vs {dr}; {}", ctx()));
                 } else {
-                    o.expect((d - dr).abs() <= 1e-5 * d + 1e-6, &format!("{n}|distance-asymmetric"), || format!("(ill-conditioned band) {d} vs {dr}; {}", ctx()));
+                    // q = dphi / dpsi of two tiny numbers: the relative error grows like ulp / dpsi
+                    let rel = (64.0 * f64::EPSILON / dpsi.max(1e-300)).min(1.0) + 1e-9;
+                    o.expect((d - dr).abs() <= rel.max(1e-5) * d + 1e-6, &format!("{n}|distance-asymmetric"), || format!("(ill-conditioned band, dpsi {dpsi}) {d} vs {dr}; {}", ctx()));
                 }
                 let th = (sp.bearing)(a, b);
                 // input class for the known-findings matcher: an operand exactly at a pole
@@ -204,6 +212,13 @@ impl Property for C16 {
                         let need = (d / maxd).ceil() as usize;
                         o.expect(without.len() + 1 <= need + 1, &format!("{n}|points_along_line|too-many-points"), || format!("{} interior points for d={d} max={maxd}; {}", without.len(), ctx()));
                     }
+                }
+                // wherever the pair lies (coincident, centimetres apart, across the antimeridian): the ratio point is not farther
+                // from either end than the ends are from each other
+                if c.a.1.abs() <= 89.0 && c.b.1.abs() <= 89.0 && ang <= 179.0 && rhumb_ok {
+                    let m = (sp.ratio)(a, b, c.ratio);
+                    let (d1, d2) = ((sp.dist)(a, m), (sp.dist)(m, b));
+                    o.expect(d1 <= d + tol && d2 <= d + tol, &format!("{n}|ratio-point-not-between"), || format!("m={:?} d(a,m)={d1} d(m,b)={d2} d(a,b)={d}; {}", m, ctx()));
                 }
                 // length = sum of segment distances
                 let mut pts = vec![a, b];
